@@ -19,4 +19,10 @@ McOne == {"A"}
 McInitBal1 == [a \in {"U", "A"} |-> IF a = "U" THEN 100 ELSE 3]
 McInitBal1C == [a \in {"U", "A", "nA"} |-> IF a = "U" THEN 100 ELSE IF a = "A" THEN 3 ELSE 1]
 McInitStor1 == [c \in McOne |-> [s \in McSlots |-> 0]]
+\* code shapes: pairwise different; the init code the sender deploys is short, the one A creates long with another
+\* marked offset, the one B creates short again
+McShapeAt == [c \in CA |-> CASE c = "A" -> 1 [] c = "B" -> 5 [] c = "C" -> 3 [] c = "nU" -> 0 [] c = "nA" -> 4 [] c = "nB" -> 2 [] OTHER -> 0]
+\* ... the other way round: long first
+McShapeAtB == [c \in CA |-> CASE c = "A" -> 2 [] c = "B" -> 0 [] c = "C" -> 4 [] c = "nU" -> 5 [] c = "nA" -> 1 [] c = "nB" -> 3 [] OTHER -> 0]
+McNoSlots == {}
 ====
